@@ -52,4 +52,6 @@ def main : IO Unit := do
     loop h out ({} : Pen.DState) Pen.driverStep {}
   | some (.list [.atom "model", .atom "geom"]) =>
     loop h out ({} : Geom.World) Geom.driverStep {}
+  | some (.list [.atom "model", .atom "serial"]) =>
+    loop h out () Serial.driverStep ()
   | _ => out.putStrLn "unknown-model"
